@@ -556,7 +556,7 @@ class Schema(ResolverMap):
 
         cloned._replace_types_and_directives(
             types={
-                t.name: copy.copy(t)
+                t.name: _clone_type(t)
                 for t in self.types.values()
                 if (
                     t not in SPECIFIED_SCALAR_TYPES
@@ -564,7 +564,7 @@ class Schema(ResolverMap):
                 )
             },
             directives={
-                d.name: copy.copy(d)
+                d.name: _clone_directive(d)
                 for d in self.directives.values()
                 if d not in SPECIFIED_DIRECTIVES
             },
@@ -573,6 +573,29 @@ class Schema(ResolverMap):
         cloned.merge_resolvers(self)
 
         return cloned
+
+
+def _clone_type(type_: NamedType) -> NamedType:
+    # Fields and arguments must not be shared with the source schema as their
+    # type references are updated in place when the cloned schema is healed.
+    cloned = copy.copy(type_)
+    if isinstance(cloned, (ObjectType, InterfaceType)):
+        fields = []
+        for field in cloned.fields:
+            field = copy.copy(field)
+            field.arguments = [copy.copy(arg) for arg in field.arguments]
+            fields.append(field)
+        cloned.fields = fields
+    elif isinstance(cloned, InputObjectType):
+        cloned.fields = [copy.copy(field) for field in cloned.fields]
+    return cloned
+
+
+def _clone_directive(directive: Directive) -> Directive:
+    cloned = copy.copy(directive)
+    cloned.arguments = [copy.copy(arg) for arg in directive.arguments]
+    cloned.argument_map = {arg.name: arg for arg in cloned.arguments}
+    return cloned
 
 
 def _build_directive_map(maybe_directives: List[Any]) -> Dict[str, Directive]:
